@@ -81,4 +81,5 @@ def search(rng, binaries, log):
 
 
 def extra_checks(tier, rng, binaries, log):
-    return S.net_abrupt_checks(tier, binaries, log, ['net_driver'] + (['net_driver_tls'] if tier == 'thorough' else []), PROP, tls_midresp=False)
+    return (S.net_abrupt_checks(tier, binaries, log, ['net_driver'] + (['net_driver_tls'] if tier == 'thorough' else []), PROP, tls_midresp=False) +
+            S.net_rstdisc_checks(tier, binaries, log, ['net_driver'] + (['net_driver_tls'] if tier == 'thorough' else []), PROP))
